@@ -67,7 +67,8 @@ CFG = {
                       "dense_define_refines", "history_refines", "init_inv", "dense_delete_counters",
                       "dense_setlength_counters", "dense_set_counters", "dense_define_counters",
                       "sparse_delete_counters", "sparse_setlength_counters", "sparse_set_counters", "sparse_define_counters",
-                      "counters_history", "init_exact", "export_refines", "transition_invisible",
+                      "counters_history", "init_exact", "export_refines", "push_refines", "pop_refines", "shift_refines",
+                      "unshift_refines", "splice_refines", "slice_refines", "transition_invisible",
                       "setlength_nonconfigurable_tail", "check_sort_sound", "check_sort_array_sound"],
     "allowed_axioms": [],
     "trusted_base": [
@@ -91,7 +92,7 @@ CFG = {
                  "expand() transitions and _defineOwnProperty are transcribed as I (kept in step with the fix: commits). Proved "
                  "without axioms, for all states satisfying the storage invariant and all arguments: every operation of either "
                  "storage - reads, indexed write, define, delete, length assignment - returns S's result and denotes S's array, "
-                 "through every dense<->sparse switch, and preserves the invariant (29 theorems, no side conditions left; history_refines lifts this to all "
+                 "through every dense<->sparse switch, and preserves the invariant (35 theorems, no side conditions left; the generic push/pop/shift/unshift/splice/slice algorithms refine S by simulation; history_refines lifts this to all "
                  "histories by induction); _defineOwnProperty equals ValidateAndApplyPropertyDescriptor for every well-formed "
                  "descriptor; truncation stops at the greatest non-configurable index; the bookkeeping counters that gate the fast paths are exact; a verified validator check_sort "
                  "accepts only permutations that are sorted and stable whenever the recorded comparator is consistent. Every run "
@@ -99,8 +100,8 @@ CFG = {
                  "dense<->sparse transitions (with the last real element as the last converted item, every filler read back) and "
                  "an array-like object, and compares every result and full descriptor dump with S evaluated by vm_compute."),
         "note": ("trusted: Coq kernel + vm_compute; the hand transcription of array.go/array_sparse.go/_defineOwnProperty and of the "
-                 "builtin_array.go fast paths in coq/C07/Model.v; the spec model S; the Go harness; the Array.prototype algorithms and "
-                 "freeze/seal are tied to the code by correspondence only (no refinement proof for them); goslice wrappers and "
+                 "builtin_array.go fast paths in coq/C07/Model.v; the spec model S; the Go harness; the remaining Array.prototype algorithms (reverse, fill, copyWithin, "
+                 "concat, indexOf, includes, sort), the fast paths and freeze/seal are tied to the code by correspondence only; goslice wrappers and "
                  "mutating comparators are not covered"),
         "technique": "Rocq refinement proof (two storages refine the array exotic object operation by operation, invariant preservation, induction over histories; verified sort validator) + differential correspondence against /repo via vm_compute",
     },
